@@ -4,7 +4,8 @@ namespace PedVerif.Drv.Frozen
 open Lean PedVerif.Drv PedVerif.Frozen
 
 /-- values: ["a"] None | ["i", n] | ["s", [code points]] | ["t", id, items] | ["l"|"d"|"e"|"f"|"o", id, items]
-    (list / dict / set / frozenset / instance of a plain class with attributes a0, a1, …) -/
+    (list / dict / set / frozenset / instance of a plain class with attributes a0, a1, …) | ["z", id, items, cid]
+    (instance of the `@frozen_dataclass` class `cid` whose field values, in field order, are `items`) -/
 partial def objOf (j : Json) : Obj :=
   match jTag j with
   | "i" => .atom (.int (jI (jAt j 1)))
@@ -15,6 +16,7 @@ partial def objOf (j : Json) : Obj :=
   | "e" => .box .set (jN (jAt j 1)) ((jL (jAt j 2)).map objOf)
   | "f" => .box .fset (jN (jAt j 1)) ((jL (jAt j 2)).map objOf)
   | "o" => .box .obj (jN (jAt j 1)) ((jL (jAt j 2)).map objOf)
+  | "z" => .box (.fz (jN (jAt j 3))) (jN (jAt j 1)) ((jL (jAt j 2)).map objOf)
   | _ => .atom .none
 
 def dfltOf (j : Json) : Dflt :=
